@@ -39,7 +39,6 @@ INVS = ["TypeOK", "C26_Bound", "C26_Consistent", "C26_Fresh", "C26_SingleFlight"
         "C26_FailOnlyIf", "C26_LoadNotCancelled"]
 # invariants that speak about the defect of the as-is design (section 7 item 4)
 DEFECT_INVS = ["C26_FailOnlyIf", "C26_LoadNotCancelled"]
-REACH = ["Reach_Failed", "Reach_Cancelled", "Reach_Expired", "Reach_Hit", "Reach_Evicted"]
 SIG_DEFECT = "prop:C26_FailOnlyIf:waiter-cancel-cancels-shared-load"
 
 
@@ -247,7 +246,7 @@ class Impl:
 
     def close(self):
         errs = [e for e in self.loop.errors if "exception was never retrieved" not in str(e.get("message", ""))]
-        self.loop.dispose()
+        _aio.shutdown_loop(self.loop)
         if errs:
             raise RuntimeError(f"event loop errors: {errs}")
 
@@ -437,7 +436,7 @@ def _run(ctx, mod):
     if ctx.quick:
         cfgs = [(2, 2, 1, 2, 2, 1, 1, True), (3, 1, 1, 1, 1, 1, 1, True)]
     else:
-        cfgs = [(2, 2, 1, 2, 3, 2, 1, False), (3, 1, 1, 1, 2, 2, 1, False), (3, 2, 1, 1, 1, 1, 1, True), (3, 2, 2, 2, 2, 1, 1, True)]
+        cfgs = [(2, 2, 1, 2, 3, 2, 1, False), (3, 1, 1, 1, 2, 2, 1, False), (3, 2, 1, 1, 1, 1, 1, True)]
 
     def mk(impl_consts):
         return lambda: Impl(mod, impl_consts[2], impl_consts[3], range(1, impl_consts[0] + 1), range(1, impl_consts[1] + 1))
@@ -447,26 +446,35 @@ def _run(ctx, mod):
     for n, cfg in enumerate(cfgs):
         cs = consts(*cfg, shield=True)
         (wd / f"S{n}.cfg").write_text(tlc.mk_cfg(constants=cs, invariants=INVS))
-        res = tlc.run(wd, "TLCache", f"S{n}.cfg", workers=ctx.workers, coverage=True, dump=f"gs{n}")
+        res = tlc.run(wd, "TLCache", f"S{n}.cfg", workers=min(4, ctx.workers), coverage=True, dump=f"gs{n}")
         ctx.add_tlc(res, f"exhaustive TLCache Shield=TRUE callers={cfg[0]} keys={cfg[1]} slots={cfg[2]} lifetime={cfg[3]} maxtime={cfg[4]} cancels<={cfg[5]} fails<={cfg[6]}")
         ctx.require_covered(res, ["Call", "Cancel", "LoadDone", "LoadFail", "Tick", "Step"], "TLCache")
         for v in res.violations:
             ctx.violation(f"spec:{v.name}", {"config": cs, "trace": _tlc_trace_detail(v)})
         if res.violations:
             return
-        graphs[n] = wd / f"gs{n}.dot"
-    # reachability companions (vacuity): each must be violated, i.e. the situation the property speaks about is reachable
-    cs_reach = consts(3, 2, 1, 2, 3, 1, 1, True, shield=True)
-    for r in (REACH[:3] if ctx.quick else REACH):
-        (wd / "Reach.cfg").write_text(tlc.mk_cfg(constants=cs_reach, invariants=[r]))
-        rres = tlc.run(wd, "TLCache", "Reach.cfg", workers=2)
-        if not rres.violations:
-            raise RuntimeError(f"vacuity: situation {r} is unreachable in {cs_reach}")
-        ctx.cov.setdefault("reachability_companions", []).append(r)
+        graphs[n] = tlc.parse_dot(wd / f"gs{n}.dot")
+    # vacuity: the situations the properties speak about are reachable (read off TLC's state dumps)
+    reach = {"a_lookup_failed": False, "one_waiter_cancelled_while_another_gets_the_value": False, "reload_after_expiry": False,
+             "cache_hit_of_an_aged_value": False, "eviction": False, "join_in_flight": False}
+    for n in graphs:
+        for st in graphs[n].nodes.values():
+            pc, lres, res, key, age = st["pc"], st["lres"], st["res"], st["key"], st["age"]
+            C = range(len(pc))
+            reach["a_lookup_failed"] |= "failed" in pc
+            reach["one_waiter_cancelled_while_another_gets_the_value"] |= any(
+                pc[c] == "cancelled" and any(d != c and key[d] == key[c] and pc[d] == "done" and lres[d] == "ok" for d in C) for c in C)
+            reach["reload_after_expiry"] |= any(pc[c] == "done" and res[c] > 1 and any(d != c and key[d] == key[c] and res[d] == 1 for d in C) for c in C)
+            reach["cache_hit_of_an_aged_value"] |= any(pc[c] == "done" and lres[c] == "none" and age[c] > 0 for c in C)
+            reach["eviction"] |= st["nvals"] >= 2 and any(st["cache"][k] == 0 and (k + 1) in st["vkey"] for k in range(len(st["cache"])))
+            reach["join_in_flight"] |= any(len(w) >= 2 for w in st["waiters"])
+    if not all(reach.values()):
+        raise RuntimeError(f"vacuity: unreachable situations {[k for k, v in reach.items() if not v]}")
+    ctx.cov["reachable_situations"] = sorted(reach)
     # liveness under fairness on the smallest configuration
     lcs = consts(2, 2, 1, 2, 1, 1, 1, True, shield=True)
     (wd / "Live.cfg").write_text(tlc.mk_cfg(spec="FairSpec", constants=lcs, properties=["C26_Live"]))
-    lres = tlc.run(wd, "TLCache", "Live.cfg", workers=ctx.workers)
+    lres = tlc.run(wd, "TLCache", "Live.cfg", workers=min(4, ctx.workers))
     ctx.add_tlc(lres, "liveness C26_Live under WF(Step), WF(LoadDone or LoadFail), Shield=TRUE")
     for v in lres.violations:
         ctx.violation(f"spec-liveness:{v.name}", {"config": lcs, "trace": _tlc_trace_detail(v)})
@@ -500,7 +508,7 @@ def _run(ctx, mod):
     variant = None
     rep = []
     for n, cfg in enumerate(cfgs):
-        g = tlc.parse_dot(graphs[n])
+        g = graphs[n]
         stats, mism = walk.replay_graph(g, mk(cfg), apply_edge, lambda i: i.project(), view=view, rng=random.Random(ctx.seed))
         rep.append({"design": "shield", "config": consts(*cfg, shield=True), **stats, "mismatches": len(mism)})
         if mism:
@@ -520,7 +528,7 @@ def _run(ctx, mod):
         for n, cfg in enumerate(cfgs):
             cs = consts(*cfg, shield=False)
             (wd / f"D{n}.cfg").write_text(tlc.mk_cfg(constants=cs, invariants=[i for i in INVS if i not in DEFECT_INVS]))
-            res = tlc.run(wd, "TLCache", f"D{n}.cfg", workers=ctx.workers, coverage=True, dump=f"gd{n}")
+            res = tlc.run(wd, "TLCache", f"D{n}.cfg", workers=min(4, ctx.workers), coverage=True, dump=f"gd{n}")
             ctx.add_tlc(res, f"exhaustive TLCache Shield=FALSE {cs} (all invariants except those of section 7 item 4)")
             for v in res.violations:
                 ctx.violation(f"prop:{v.name}:as-is-design", {"config": cs, "trace": _tlc_trace_detail(v)})
@@ -554,7 +562,7 @@ def _run(ctx, mod):
     rng = random.Random(ctx.seed * 7919 + 26)
     lines = []
     for i in range(ntr):
-        sl = slots if i % 3 else 1
+        sl = slots if (ctx.quick or i % 3) else 1
         ev = random_trace(mod, rng, ncall, nkeys, sl, lifetime, maxtime, nsteps)
         lines.append({"ev": ev, "Slots": sl, "Lifetime": lifetime})
     scripted = scripted_traces(mod)
@@ -570,7 +578,7 @@ def _run(ctx, mod):
         tf.write_text("\n".join(json.dumps({"ev": t["ev"]}) for t in trs) + "\n")
         cs = consts(nc, nk, sl, lt, mt, nc, nc, False, shield=shield)
         (wd / f"Trace{gi}.cfg").write_text(tlc.mk_cfg(spec="TraceSpec", constants=cs, invariants=invs, deadlock=True))
-        tres = tlc.run(wd, "TLCacheTrace", f"Trace{gi}.cfg", workers=ctx.workers, env={"TRACE_FILE": tf})
+        tres = tlc.run(wd, "TLCacheTrace", f"Trace{gi}.cfg", workers=min(4, ctx.workers), env={"TRACE_FILE": tf})
         n_ev = sum(len(t["ev"]) for t in trs)
         nev += n_ev
         ctx.add_tlc(tres, f"trace validation of {len(trs)} executions of the real class (callers={nc} keys={nk} slots={sl} lifetime={lt}) against Shield={shield}")
